@@ -247,6 +247,7 @@ struct Rw<'a> {
     sections: &'a BTreeMap<String, String>,
     rules: RefCell<BTreeMap<String, usize>>,
     loop_idx: Cell<usize>,
+    closure_idx: Cell<usize>,
     used_sections: RefCell<Vec<String>>,
     errors: RefCell<Vec<Fail>>,
 }
@@ -473,6 +474,28 @@ impl<'a, 'b, 'ast> Visit<'ast> for Collector<'a, 'b> {
                     self.edits.push((r.start, r.end, out));
                 }
             }
+            Stmt::Local(l) => {
+                // anchors "after-let NAME" / "before-let NAME": proof text next to the let that binds NAME
+                struct Names(Vec<String>);
+                impl<'x> Visit<'x> for Names {
+                    fn visit_pat_ident(&mut self, p: &'x syn::PatIdent) {
+                        self.0.push(p.ident.to_string());
+                    }
+                }
+                let mut n = Names(vec![]);
+                n.visit_pat(&l.pat);
+                for name in n.0 {
+                    if let Some(t) = self.rw.section(&format!("after-let {name}")) {
+                        let at = s.span().byte_range().end;
+                        self.edits.push((at, at, format!("\nproof {{ //@p\n{}\n}} //@p\n", mark(t))));
+                    }
+                    if let Some(t) = self.rw.section(&format!("before-let {name}")) {
+                        let at = s.span().byte_range().start;
+                        self.edits.push((at, at, format!("proof {{ //@p\n{}\n}} //@p\n", mark(t))));
+                    }
+                }
+                visit::visit_stmt(self, s)
+            }
             _ => visit::visit_stmt(self, s),
         }
     }
@@ -554,8 +577,20 @@ impl<'a, 'b, 'ast> Visit<'ast> for Collector<'a, 'b> {
                     }
                 }
             }
-            Expr::Closure(_) => {
-                rw.err("unsupported-construct", "closure in body".into());
+            Expr::Closure(c) => {
+                // closures are accepted only with a contract section keyed by ordinal:
+                //   |args| body   ->   |args| <contract text> { body }
+                let idx = rw.closure_idx.get();
+                rw.closure_idx.set(idx + 1);
+                match rw.section(&format!("closure {idx}")) {
+                    Some(t) if matches!(c.output, syn::ReturnType::Default) => {
+                        let body = rw.render_expr(&c.body);
+                        let sp = c.body.span().byte_range();
+                        self.edits.push((sp.start, sp.end, format!("{} {{ {} }}", t.trim_end(), body)));
+                        rw.count("R11");
+                    }
+                    _ => rw.err("unsupported-construct", format!("closure {idx} in body without a contract section")),
+                }
             }
             _ => visit::visit_expr(self, e),
         }
@@ -604,6 +639,7 @@ fn extract_body(repo: &Path, source: &str, d: &Directive, variant: &str) -> Resu
         sections: &d.sections,
         rules: RefCell::new(rules),
         loop_idx: Cell::new(0),
+        closure_idx: Cell::new(0),
         used_sections: RefCell::new(vec![]),
         errors: RefCell::new(vec![]),
     };
